@@ -472,13 +472,15 @@ inductive IReach (c : ICfg) (s0 : IT) : IT → Prop where
 
 /-! ## `merge_states(states, strict_states_cnt=n)` (transform.py:343-374 and 588-604) -/
 
+/-- loop body of `TransformRunner.merge_states`: merge into the running state, count -/
+def trFoldStep {S : Type} (merge : S → S → S) (a : Option S × Nat) (st : S) : Option S × Nat :=
+  (some (match a.1 with | none => st | some m => merge m st), a.2 + 1)
+
 /-- `TransformRunner.merge_states`: folds while counting, checks the count afterwards. -/
 def trMergeStates {S : Type} (merge : S → S → S) (empty : S) (states : List S) (strict : Nat) :
     Except ErrKind S :=
-  let acc := states.foldl (fun (a : Option S × Nat) st =>
-    (some (match a.1 with | none => st | some m => merge m st), a.2 + 1)) (none, 0)
-  if strict != 0 && acc.2 != strict then .error .value
-  else .ok (acc.1.getD empty)
+  if strict != 0 && (states.foldl (trFoldStep merge) (none, 0)).2 != strict then .error .value
+  else .ok ((states.foldl (trFoldStep merge) (none, 0)).1.getD empty)
 
 /-- `ChainedRunner.merge_states`: materialises the states, checks the count first, then lets each
 aggregating runner merge. -/
@@ -486,5 +488,10 @@ def chMergeStates {S : Type} (merge : S → S → S) (empty : S) (states : List 
     Except ErrKind S :=
   if strict != 0 && states.length != strict then .error .value
   else .ok (match states with | [] => empty | st :: rest => rest.foldl merge st)
+
+/-- `_async_run_single_stage`, orchestrate.py:367-391: after all stage workers are done the
+per-worker AggregateResults in `result_q.returned` (`agg_state` may be `None`) are replaced by one. -/
+def stageReturned {S : Type} (mergeStates : List S → S) (returned : List (Option S)) : List S :=
+  if returned.isEmpty then [] else [mergeStates (returned.filterMap id)]
 
 end MlModel.Sched
